@@ -18,6 +18,8 @@ from vlib import Inconclusive
 MC = [  # cfg, expectation
     ('ExecMC_fixed.cfg', None),
     ('ExecMC_live.cfg', None),
+    ('ExecMC_faultyb.cfg', None),
+    ('ExecMC_livefaulty.cfg', None),
     ('ExecMC_asis.cfg', 'NoOrphanRunning'),
     ('ExecMC_restore.cfg', 'OkIsOwned'),
     ('ExecMC_assignfirst.cfg', 'OkIsOwned'),
@@ -38,7 +40,7 @@ def model_check(chk, wdir, tier, only=None):
     chk.cov['exec_model_variants_refuted'] = [c for c, e in MC if e and (only is None or c in only)]
 
 
-def gen(tier, kinds=('plain', 'window', 'kill'), nkill=8):
+def gen(tier, kinds=('plain', 'window', 'kill', 'fatal'), nkill=8):
     rng = random.Random(vlib.seed() * 7001 + 12 + len(kinds))
     cases = []
 
@@ -59,6 +61,9 @@ def gen(tier, kinds=('plain', 'window', 'kill'), nkill=8):
         for gate in range(nshard):
             add(kind='window', nshard=nshard, gate=gate, discard=True)
     add(kind='window', nshard=2, gate=0, discard=False)
+    # user code that fails persistently; afterwards a healthy program in the same session
+    for nshard in (1, 2, 3):
+        add(kind='fatal', nshard=nshard, discard=False)
     # a machine dies at an executor event
     evs = ['BmGrant', 'BmCall', 'BmReply', 'BmSetLoc', 'BmOkSet']
     pts = [(e, n) for e in evs for n in range(1, 5)]
@@ -72,7 +77,7 @@ def gen(tier, kinds=('plain', 'window', 'kill'), nkill=8):
 
 
 def flatten(recs):
-    hdr = {'ev': 'Header', 'tasks': [], 'deps': {}, 'roots': [], 'machs': [], 'seq': 0}
+    hdr = {'ev': 'Header', 'tasks': [], 'deps': {}, 'roots': [], 'machs': [], 'faulty': [], 'seq': 0}
     out = []
     for r in recs:
         if 'panic' in r or not r.get('events'):
@@ -103,6 +108,8 @@ def flatten(recs):
                 e['tasks'] = [T(x) for x in e['tasks']]
             e['s'] = r['id']
             evs.append(e)
+        # tasks whose user code fails: those the executor received a fatal reply for
+        hdr['faulty'] += sorted({e['t'] for e in evs if e['ev'] == 'BmReply' and e.get('err') == 'fatal'})
         hdr['roots'] += sorted(set(roots))
         hdr['machs'] += [M(k) for k in sorted(machs)]
         out.append({'ev': 'Begin', 's': r['id'], 'seq': 0})
@@ -139,7 +146,10 @@ def drift_check(chk, wdir, recs):
             accepted = len({x['s'] for x in left})
             break
         stuck = left[min(max(conf['reached'] - 1, 0), len(left) - 1)]
-        drift.append({'session': stuck['s'], 'seq': stuck['seq'], 'ev': stuck['ev']})
+        sess_evs = [x for x in left if x['s'] == stuck['s']]
+        k = sess_evs.index(stuck)
+        drift.append({'session': stuck['s'], 'seq': stuck['seq'], 'ev': stuck['ev'],
+                      'context': [{kk: vv for kk, vv in x.items() if kk != 's'} for x in sess_evs[max(0, k - 25):k + 3]]})
         print('DRIFT property=%s executor session %s is not a behaviour of Exec.tla at event seq %s (%s)' % (chk.pid, stuck['s'], stuck['seq'], stuck['ev']))
         left = [x for x in left if x['s'] != stuck['s']]
     chk.cov['exec_drift'] = len(drift)
@@ -165,7 +175,7 @@ def drift_check(chk, wdir, recs):
         chk.cov['exec_conformance_selftest'] = res
 
 
-def run(chk, w, tier, replay_case=None, kinds=('plain', 'window', 'kill'), nkill=8, mc_only=None):
+def run(chk, w, tier, replay_case=None, kinds=('plain', 'window', 'kill', 'fatal'), nkill=8, mc_only=None):
     wdir = w.root + '/tlc'
     if replay_case is not None:
         cases = [replay_case]
@@ -194,7 +204,7 @@ def run(chk, w, tier, replay_case=None, kinds=('plain', 'window', 'kill'), nkill
         ident = {'what': b['what'], 'exec': 'bigmachine', 'do': 'executor-' + c['kind'], 'ops_on_result': 'map'}
         chk.violation(ident, '%s (executor session %s: run1 %s, reuse %s, rows %s/%s)' % (
             b['what'], json.dumps({k: c[k] for k in c if c[k] not in ('', 0, False)}), r.get('run1'), r.get('reuse'), r.get('rows'), r.get('wantrows')),
-            {'xcase': c, 'record': {k: r[k] for k in r if k != 'events'}})
+            {'xcase': c, 'record': r})
     chk.cov['executor_sessions'] = len(recs)
     chk.cov['executor_events'] = sum(len(r.get('events', [])) for r in recs)
     chk.cov['executor_windows_found'] = sum(1 for r in recs if r.get('window'))
